@@ -394,11 +394,16 @@ class ErrorStack(deque):
                 self.on_eval_flag = False
             tb = tb.tb_next
 
-        while rolledback:
+        if self.on_eval_flag and rolledback:
+            # The error was raised after the last formula had returned
+            # (e.g. None returned). Its node has no frame in the traceback.
             node = rolledback.pop()
             self.append(
                 (node, 0, None)
             )
+
+        # The rest are nodes of failures handled by formulas themselves
+        rolledback.clear()
 
     def get_traceback(self, show_locals):
         if show_locals:
